@@ -12,6 +12,7 @@ import (
 	"errors"
 	"fmt"
 	"math/rand"
+	"os"
 	"strings"
 	"sync"
 	"time"
@@ -80,11 +81,11 @@ func (a *c16Actor) counts() (int, int) {
 type c16Phase int
 
 const (
-	phFresh c16Phase = iota
-	phAdding
-	phLive
-	phFailed
-	phRemoved
+	c16phFresh c16Phase = iota
+	c16phAdding
+	c16phLive
+	c16phFailed
+	c16phRemoved
 )
 
 type c16Sub struct {
@@ -103,37 +104,37 @@ type c16AddRes struct {
 // c16Run is one case: a fresh server, one service, the harness's own bookkeeping (what the
 // callers of Add/Remove have been told — never the model's state).
 type c16Run struct {
-	env      *svEnv
-	svc      bus.Service
-	sid      uint32
-	actors   []*c16Actor
-	phase    []c16Phase
-	id       []uint32
-	addDone  []chan c16AddRes
-	gated    []bool
-	queued   [][2]uint32 // (conn, message id) of calls waiting behind a gate, per actor: flattened below
-	queuedOf [][][2]uint32
-	lastPost []bool
-	owner    map[uint32]int // id -> actor that was last added successfully under it
-	pendingBox map[uint32]bool // the mailbox last installed under the id is the placeholder's (never answers)
-	subs     []*c16Sub
-	nextMsg  uint32
-	nextUID  uint32
-	nextSeed int64
-	seeds    []int64
-	ops      []string
-	descs    []string
-	res      *hx.Result
-	removedIDs []uint32
-	failedIDs  []uint32
-	obj1Gone bool
-	termSent []bool
-	taint    string // a known defect has made the callers' picture of the service ambiguous (two live objects under one index)
-	allow1   bool   // this case may remove or terminate object 1
-	reused   []bool
+	env              *svEnv
+	svc              bus.Service
+	sid              uint32
+	actors           []*c16Actor
+	phase            []c16Phase
+	id               []uint32
+	addDone          []chan c16AddRes
+	gated            []bool
+	queued           [][2]uint32 // (conn, message id) of calls waiting behind a gate, per actor: flattened below
+	queuedOf         [][][2]uint32
+	lastPost         []bool
+	owner            map[uint32]int  // id -> actor that was last added successfully under it
+	pendingBox       map[uint32]bool // the mailbox last installed under the id is the placeholder's (never answers)
+	subs             []*c16Sub
+	nextMsg          uint32
+	nextUID          uint32
+	nextSeed         int64
+	seeds            []int64
+	ops              []string
+	descs            []string
+	res              *hx.Result
+	removedIDs       []uint32
+	failedIDs        []uint32
+	obj1Gone         bool
+	termSent         []bool
+	taint            string // a known defect has made the callers' picture of the service ambiguous (two live objects under one index)
+	allow1           bool   // this case may remove or terminate object 1
+	reused           []bool
 	sawRemovePending bool
-	dead     bool
-	rng      *hx.Rng
+	dead             bool
+	rng              *hx.Rng
 }
 
 func c16NewRun(res *hx.Result, rng *hx.Rng) (*c16Run, error) {
@@ -163,8 +164,11 @@ func c16NewRun(res *hx.Result, rng *hx.Rng) (*c16Run, error) {
 	if err != nil {
 		return nil, err
 	}
+	if c16Debug != "" {
+		os.WriteFile(c16Debug, nil, 0o644)
+	}
 	r.svc, r.sid = svc, svc.ServiceID()
-	r.phase[0], r.id[0] = phLive, 1
+	r.phase[0], r.id[0] = c16phLive, 1
 	r.owner[1] = 0
 	return r, nil
 }
@@ -184,7 +188,7 @@ func (r *c16Run) finish() {
 	// let pending Adds complete successfully: a failed one would leave a nil entry that a terminate
 	// still queued in some mailbox could hit (nil dereference in a mailbox goroutine ends the process)
 	for k := range r.actors {
-		if r.phase[k] == phAdding {
+		if r.phase[k] == c16phAdding {
 			select {
 			case r.actors[k].proceed <- true:
 			default:
@@ -222,11 +226,11 @@ func (r *c16Run) observe(deferred bool, idx *uint32, ret *bool, panicked bool) (
 		sr = fmt.Sprintf("(Some %s)", hx.Bool(*ret))
 	}
 	o := fmt.Sprintf("ob %s %s %s %s [%s] %s %s", hx.Bool(deferred), si, sr, hx.Bool(panicked),
-		strings.Join(frames, "; "), plainNList(hooks), plainNList(execs))
+		strings.Join(frames, "; "), c16NList(hooks), c16NList(execs))
 	return o, perConn
 }
 
-func plainNList(vs []int) string {
+func c16NList(vs []int) string {
 	it := make([]string, len(vs))
 	for i, v := range vs {
 		it[i] = fmt.Sprintf("%d%%N", v)
@@ -234,7 +238,15 @@ func plainNList(vs []int) string {
 	return "[" + strings.Join(it, "; ") + "]"
 }
 
+var c16Debug = os.Getenv("C16_DEBUG")
+
 func (r *c16Run) record(op, obs, desc string) {
+	if c16Debug != "" { // the operations of the case in progress, for post-mortems of a process death
+		if f, err := os.OpenFile(c16Debug, os.O_APPEND|os.O_CREATE|os.O_WRONLY, 0o644); err == nil {
+			fmt.Fprintf(f, "%d: %s\n", len(r.ops), desc)
+			f.Close()
+		}
+	}
 	r.ops = append(r.ops, fmt.Sprintf("(%s, %s)", op, obs))
 	r.descs = append(r.descs, desc)
 }
@@ -249,10 +261,10 @@ func (r *c16Run) checkCounters(where string) {
 		if h > 1 {
 			r.fail("terminated-twice", fmt.Sprintf("OnTerminate of actor %d ran %d times after: %s", k, h, r.trace()), "")
 		}
-		if h == 1 && r.phase[k] != phRemoved {
+		if h == 1 && r.phase[k] != c16phRemoved {
 			r.fail("terminated-while-live", fmt.Sprintf("OnTerminate of actor %d ran although it was never removed (%s): %s", k, where, r.trace()), "")
 		}
-		if h == 0 && r.phase[k] == phRemoved {
+		if h == 0 && r.phase[k] == c16phRemoved {
 			r.fail("hook-not-run", fmt.Sprintf("actor %d was removed but OnTerminate did not run (%s): %s", k, where, r.trace()), "")
 		}
 	}
@@ -283,8 +295,8 @@ func (r *c16Run) checkTold(k int, perConn [][]net.Message) {
 func (r *c16Run) reconcile(perConn [][]net.Message, where string) {
 	for k, a := range r.actors {
 		h, _ := a.counts()
-		if r.phase[k] == phLive && h >= 1 && r.termSent[k] {
-			r.phase[k] = phRemoved
+		if r.phase[k] == c16phLive && h >= 1 && r.termSent[k] {
+			r.phase[k] = c16phRemoved
 			r.removedIDs = append(r.removedIDs, r.id[k])
 			if r.id[k] == 1 {
 				r.obj1Gone = true
@@ -297,7 +309,7 @@ func (r *c16Run) reconcile(perConn [][]net.Message, where string) {
 
 func (r *c16Run) liveAt(id uint32, except int) int {
 	for k := range r.actors {
-		if k != except && r.phase[k] == phLive && r.id[k] == id {
+		if k != except && r.phase[k] == c16phLive && r.id[k] == id {
 			return k
 		}
 	}
@@ -328,7 +340,7 @@ func (r *c16Run) opAddBegin(k int, seed int64) {
 	select {
 	case id := <-a.entered:
 		idx = &id
-		r.phase[k], r.id[k] = phAdding, id
+		r.phase[k], r.id[k] = c16phAdding, id
 		r.pendingBox[id] = true
 	case <-time.After(5 * time.Second):
 		r.fail("add-stuck", "Service.Add did not reach Activate within 5 s: "+r.trace(), "")
@@ -350,7 +362,7 @@ func (r *c16Run) opAddBegin(k int, seed int64) {
 	}
 	if idx != nil {
 		for o := range r.actors {
-			if o != k && r.phase[o] == phAdding && r.id[o] == *idx {
+			if o != k && r.phase[o] == c16phAdding && r.id[o] == *idx {
 				key := ""
 				if *idx == 0 && r.obj1Gone {
 					key = "zero_index_untested"
@@ -407,11 +419,17 @@ func (r *c16Run) opAddEnd(k int, ok bool) {
 					r.taint = key
 				}
 			}
-			r.phase[k] = phLive
+			for o := range r.actors {
+				// a terminate of an earlier holder of this index is still waiting in that object's mailbox
+				if o != k && r.id[o] == r.id[k] && r.termSent[o] && r.gated[o] && r.phase[o] != c16phFresh && r.taint == "" {
+					r.taint = "terminate_by_index"
+				}
+			}
+			r.phase[k] = c16phLive
 			r.owner[r.id[k]] = k
 			r.pendingBox[r.id[k]] = false
 		} else {
-			r.phase[k] = phFailed
+			r.phase[k] = c16phFailed
 			r.failedIDs = append(r.failedIDs, r.id[k])
 		}
 	case <-time.After(5 * time.Second):
@@ -428,10 +446,10 @@ func (r *c16Run) opRemove(id uint32) {
 	adding := false
 	failed := false
 	for k := range r.actors {
-		if r.phase[k] == phAdding && r.id[k] == id {
+		if r.phase[k] == c16phAdding && r.id[k] == id {
 			adding = true
 		}
-		if r.phase[k] == phFailed && r.id[k] == id {
+		if r.phase[k] == c16phFailed && r.id[k] == id {
 			failed = true
 		}
 	}
@@ -464,7 +482,7 @@ func (r *c16Run) opRemove(id uint32) {
 		if err != nil {
 			r.fail("remove-refused", fmt.Sprintf("Remove(%d) of live actor %d failed: %s", id, target, r.trace()), "")
 		} else {
-			r.phase[target] = phRemoved
+			r.phase[target] = c16phRemoved
 			r.removedIDs = append(r.removedIDs, id)
 			if id == 1 {
 				r.obj1Gone = true
@@ -484,14 +502,14 @@ func (r *c16Run) opRemove(id uint32) {
 }
 
 type c16Frame struct {
-	conn   int
-	post   bool
-	obj    uint32
-	act    int // 0 hello 1 unknown 2 terminate 3 register
-	arg    uint32
-	sig    uint32
-	uid    uint64
-	id     uint32
+	conn int
+	post bool
+	obj  uint32
+	act  int // 0 hello 1 unknown 2 terminate 3 register
+	arg  uint32
+	sig  uint32
+	uid  uint64
+	id   uint32
 }
 
 func (f c16Frame) term() string {
@@ -688,7 +706,7 @@ func (r *c16Run) opEmit(k int, sig uint32) {
 		if s.told < 0 && n != 0 {
 			r.fail("event-after-termination", fmt.Sprintf("subscriber (conn %d, message id %d) received %d events after it was told the object terminated: %s", s.conn, s.mid, n, r.trace()), "")
 		}
-		if s.told >= 0 && r.phase[k] == phLive && n != 1 {
+		if s.told >= 0 && r.phase[k] == c16phLive && n != 1 {
 			r.fail("subscriber-of-live-object-lost", fmt.Sprintf("subscriber (conn %d, message id %d) of live actor %d received %d events for one emission: %s", s.conn, s.mid, k, n, r.trace()), "")
 		}
 	}
@@ -700,11 +718,11 @@ func (r *c16Run) pickID() uint32 {
 	var live, removed, adding, failed []uint32
 	for k := range r.actors {
 		switch r.phase[k] {
-		case phLive:
+		case c16phLive:
 			live = append(live, r.id[k])
-		case phAdding:
+		case c16phAdding:
 			adding = append(adding, r.id[k])
-		case phFailed:
+		case c16phFailed:
 			failed = append(failed, r.id[k])
 		}
 	}
@@ -768,11 +786,11 @@ func (r *c16Run) step() {
 	var fresh, adding, live, ungated, gated, activated []int
 	for k := range r.actors {
 		switch r.phase[k] {
-		case phFresh:
+		case c16phFresh:
 			fresh = append(fresh, k)
-		case phAdding:
+		case c16phAdding:
 			adding = append(adding, k)
-		case phLive:
+		case c16phLive:
 			live = append(live, k)
 			if !r.gated[k] {
 				ungated = append(ungated, k)
@@ -781,7 +799,7 @@ func (r *c16Run) step() {
 		if r.gated[k] {
 			gated = append(gated, k)
 		}
-		if r.phase[k] == phLive || r.phase[k] == phRemoved || r.phase[k] == phFailed {
+		if r.phase[k] == c16phLive || r.phase[k] == c16phRemoved || r.phase[k] == c16phFailed {
 			activated = append(activated, k)
 		}
 	}
@@ -802,6 +820,11 @@ func (r *c16Run) step() {
 		// a failed activation leaves a nil entry on the pinned code; a terminate handled by a mailbox
 		// goroutine for that index would end the process, so failing Adds never share an index
 		ok := r.rng.Chance(0.85) || r.reused[k] || r.id[k] == 0
+		for o := range r.actors { // ... nor the index of another object (possible once Remove hit a placeholder)
+			if o != k && r.id[o] == r.id[k] && (r.phase[o] == c16phLive || r.phase[o] == c16phAdding) {
+				ok = true
+			}
+		}
 		r.opAddEnd(k, ok)
 	case x < 42:
 		id := r.pickID()
@@ -851,7 +874,7 @@ func (r *c16Run) epilogue() {
 		if r.dead {
 			return
 		}
-		if r.phase[k] == phAdding {
+		if r.phase[k] == c16phAdding {
 			r.opAddEnd(k, true)
 		}
 	}
@@ -860,7 +883,7 @@ func (r *c16Run) epilogue() {
 		if r.dead {
 			return
 		}
-		if r.phase[k] != phLive {
+		if r.phase[k] != c16phLive {
 			continue
 		}
 		_, before := r.actors[k].counts()
@@ -891,8 +914,8 @@ func (r *c16Run) caseTerm() string {
 
 // ---------- defect probes: the witnesses of C16_refuted_* replayed on the real service ----------
 
-func c16Probes(res *hx.Result, rng *hx.Rng) [4]bool {
-	var on [4]bool
+func c16Probes(res *hx.Result, rng *hx.Rng) [5]bool {
+	var on [5]bool
 	// keep_box_on_remove
 	if r, err := c16NewRun(res, rng); err == nil {
 		r.res = hx.NewResult("probe", 0, "")
@@ -914,7 +937,7 @@ func c16Probes(res *hx.Result, rng *hx.Rng) [4]bool {
 		r.opAddEnd(1, true)
 		r.opAddBegin(2, 13)
 		r.opAddEnd(2, true)
-		on[1] = r.phase[1] == phLive && r.phase[2] == phLive && r.id[1] == r.id[2]
+		on[1] = r.phase[1] == c16phLive && r.phase[2] == c16phLive && r.id[1] == r.id[2]
 		h, _ := r.actors[1].counts()
 		res.Switch("zero_index_untested", on[1], fmt.Sprintf("Remove(1), then Add twice: indices %d and %d, OnTerminate count of the first object %d", r.id[1], r.id[2], h))
 		r.finish()
@@ -936,17 +959,36 @@ func c16Probes(res *hx.Result, rng *hx.Rng) [4]bool {
 		r.opRemove(r.id[1])
 		on[3] = r.sawRemovePending
 		r.opAddBegin(2, 15)
-		if r.phase[2] == phAdding {
+		if r.phase[2] == c16phAdding {
 			r.opAddEnd(2, true)
 		}
 		r.opAddEnd(1, true)
 		res.Switch("remove_pending_slot", on[3], fmt.Sprintf("Service.Remove(%d) while the object is inside Activate returned success=%v; a second Add with the same draws got index %d; both live afterwards: %v",
-			r.id[1], on[3], r.id[2], r.phase[1] == phLive && r.phase[2] == phLive && r.id[1] == r.id[2]))
+			r.id[1], on[3], r.id[2], r.phase[1] == c16phLive && r.phase[2] == c16phLive && r.id[1] == r.id[2]))
+		r.finish()
+	}
+	// terminate_by_index
+	if r, err := c16NewRun(res, rng); err == nil {
+		r.res = hx.NewResult("probe", 0, "")
+		r.opAddBegin(1, 16)
+		r.opAddEnd(1, true)
+		id := r.id[1]
+		r.opPlug(1)
+		r.opSend(c16Frame{conn: 0, obj: id, act: 2, arg: id, post: true})
+		r.opRemove(id)
+		r.opAddBegin(2, 16)
+		if r.phase[2] == c16phAdding {
+			r.opAddEnd(2, true)
+		}
+		same := r.id[2] == id
+		r.opDrain(1)
+		h, _ := r.actors[2].counts()
+		on[4] = same && h == 1
+		res.Switch("terminate_by_index", on[4], fmt.Sprintf("object A (index %d) has its own terminate queued (mailbox held), Service.Remove(%d), Add B with the same draws -> index %d, A's mailbox released: OnTerminate count of B = %d", id, id, r.id[2], h))
 		r.finish()
 	}
 	return on
 }
-
 
 // ---------- concurrent part: racing removals of one object ----------
 
@@ -1034,7 +1076,7 @@ func c16Stress(res *hx.Result, rng *hx.Rng, rounds int) {
 				res.Fail("concurrent-remove-notice", fmt.Sprintf("%s: subscriber (conn %d, message id %d) of actor %d received %d termination notices, expected %d", desc, sb.conn, sb.mid, sb.actor, n, want))
 			}
 		}
-		r.phase[victim] = phRemoved
+		r.phase[victim] = c16phRemoved
 		r.removedIDs = append(r.removedIDs, vid)
 		for k := 1; k <= 3; k++ {
 			if k == victim {
@@ -1052,6 +1094,71 @@ func c16Stress(res *hx.Result, rng *hx.Rng, rounds int) {
 	}
 }
 
+// ---------- exhaustive small scope ----------
+
+// c16Exhaustive runs every sequence of length 1..maxLen over eight operations on two objects:
+// add the next object, remove object A / B, call A / B, A's own terminate, subscribe to A, A emits.
+// Operations on an object that has not been added yet address an unknown index.
+func c16Exhaustive(res *hx.Result, rng *hx.Rng, cf *hx.Cases, maxLen int) {
+	const k = 8
+	for l := 1; l <= maxLen; l++ {
+		total := 1
+		for i := 0; i < l; i++ {
+			total *= k
+		}
+		for code := 0; code < total; code++ {
+			r, err := c16NewRun(res, rng)
+			if err != nil {
+				res.Fail("harness-setup", err.Error())
+				return
+			}
+			idOf := func(a int) uint32 {
+				if r.phase[a] == c16phFresh {
+					return 7777
+				}
+				return r.id[a]
+			}
+			c := code
+			for i := 0; i < l && !r.dead; i++ {
+				op := c % k
+				c /= k
+				switch op {
+				case 0:
+					for a := 1; a < c16Actors; a++ {
+						if r.phase[a] == c16phFresh {
+							seed := r.nextSeed
+							r.nextSeed++
+							r.opAddBegin(a, seed)
+							if r.phase[a] == c16phAdding {
+								r.opAddEnd(a, true)
+							}
+							break
+						}
+					}
+				case 1, 2:
+					r.opRemove(idOf(op))
+				case 3, 4:
+					r.opSend(c16Frame{conn: 1, obj: idOf(op - 2), act: 0})
+				case 5:
+					r.opSend(c16Frame{conn: 1, obj: idOf(1), act: 2, arg: 0})
+				case 6:
+					r.opSend(c16Frame{conn: 0, obj: idOf(1), act: 3, arg: 0, sig: 102, uid: uint64(r.nextUID)})
+					r.nextUID++
+				case 7:
+					if r.phase[1] != c16phFresh {
+						r.opEmit(1, 102)
+					}
+				}
+			}
+			r.epilogue()
+			r.finish()
+			res.Count(strings.Join(r.ops, "|"), true)
+			res.Dist(fmt.Sprintf("exhaustive-seq-len:%d", l))
+			cf.Add("tcases", r.caseTerm(), fmt.Sprintf("exhaustive %d/%d: %s", l, code, r.trace()))
+		}
+	}
+}
+
 func runC16(res *hx.Result, rng *hx.Rng, tier string, outdir string) {
 	res.Rule = "operation sequences (about 40 operations) over 6 actors, 3 connections, 2 signals on a real bus.Service: Add in two halves with " +
 		"operations inside Activate, seeds reused to force index collisions, failing activations, Remove of live/removed/pending/failed/unknown " +
@@ -1065,7 +1172,7 @@ func runC16(res *hx.Result, rng *hx.Rng, tier string, outdir string) {
 	on := c16Probes(res, rng)
 	cf := hx.NewCases(outdir, "C16", "From QV Require Import Service C16Run.", "mismatches cfg tcases", res, "tcases", "tcase")
 	cf.Extra = append(cf.Extra, "Local Open Scope N_scope.")
-	cf.Extra = append(cf.Extra, fmt.Sprintf("Definition cfg := mkcfg %s %s %s %s.", hx.Bool(on[0]), hx.Bool(on[1]), hx.Bool(on[2]), hx.Bool(on[3])))
+	cf.Extra = append(cf.Extra, fmt.Sprintf("Definition cfg := mkcfg %s %s %s %s %s.", hx.Bool(on[0]), hx.Bool(on[1]), hx.Bool(on[2]), hx.Bool(on[3]), hx.Bool(on[4])))
 	for i := 0; i < nCases; i++ {
 		r, err := c16NewRun(res, rng)
 		if err != nil {
@@ -1099,6 +1206,11 @@ func runC16(res *hx.Result, rng *hx.Rng, tier string, outdir string) {
 			res.Sample(r.trace())
 		}
 		cf.Add("tcases", r.caseTerm(), fmt.Sprintf("case %d: %s", i, r.trace()))
+	}
+	if tier == "thorough" {
+		c16Exhaustive(res, rng, cf, 4)
+		res.Exhaustive = true
+		res.Notes = append(res.Notes, "exhaustive part: every sequence of length <= 4 over {add next object, remove A, remove B, call A, call B, terminate A, subscribe to A, A emits} (4680 sequences), each followed by a call to every live and every removed object")
 	}
 	cf.Flush()
 	rounds := 40
